@@ -10,6 +10,14 @@ checks = {
    text="Relations-and-tables clause: the eight type relations of value_type.rs that decide which operand, argument and declaration types match (identity, implicit coercions, address coercions, autoderef, declaration matching, concretization) are symbolically executed from MIR and proved equal to a reference model for every pair of types of nesting depth <= 3 (quick) / 5 (thorough), plus algebraic consequences (no relation connects distinct primitives, coercions only have the documented shapes, identity is reflexive and symmetric).",
    note="Bounded by type nesting depth; lengths and names unconstrained. Trusted: MIR dump, mirsym + std models (validated natively on sampled pairs every run), the reference model vtref.py. Outside: the typer/resolver code that applies these relations to real expressions.",
    ref="DESIGN.md section 3, C07"),
+ "C08": dict(cat="model_checking",
+   text="Rule-kernel clause: mutability::needs_outer_mutability is symbolically executed from MIR over a Reference whose step vector holds up to 4 (quick) / 7 (thorough) symbolic access steps with symbolic length; z3 decides that the base variable must be mutable exactly when the reference does not pass through a pointer (no autoderef step and no deslice-by-pointer), which together with the mutability bit is the E530 verdict table.",
+   note="Bounded by the number of steps; loop unrolled with an unwinding obligation. Outside: use_variable and the per-declaration mutability map, E531-E533, E513, and the run-time non-interference consequence. Trusted: MIR dump, mirsym + Vec/slice-iterator models, validated natively (guarded hook) on all sequences of <= 2 steps and sampled longer ones.",
+   ref="DESIGN.md section 3, C08"),
+ "C12": dict(cat="model_checking",
+   text="Export-step clause: expander::export / extract_public symbolically executed from MIR on a symbolic Declaration (6 kinds x flag set x opaque payload): exactly the pub constants, functions, function heads and structures are exported; functions leave as heads (no body); the exported flags are the original ones without pub; every other field is the original value; an exported declaration is never exported again. Loop-free, no bound needed.",
+   note="Outside: expand() (import path resolution, splice order), multi-file behaviour of compiled programs. Trusted: MIR dump, mirsym + models (EnumSet as bit set, derived Clone as identity, Option::map); the encoding is validated natively (guarded hook) on all 6 x 32 kind/flag combinations on every run.",
+   ref="DESIGN.md section 3, C12"),
  "C09": dict(cat="model_checking",
    text="Lexed-value clause: for 15 boundary literal templates (largest decimal decade, 32 hex digits, 128 binary digits, every suffix stem, hex/unicode/simple escapes, unclosed and two-character char literals) completed by 2-4 arbitrary bytes, the real second-generation lexer and an independent reference lexer are both executed symbolically and z3 decides that kind, suffix type, 128-bit value and error code (E140, E141, E160-E163) agree for every completion; no overflow panic is reachable.",
    note="Bounded to the templates (prefix + 2..4 symbolic bytes, lengths up to 131). Outside: first-generation lexing, unary-minus folding, the L1142 range lint, run-time values in IR. Trusted: MIR dumps, mirsym + models (both encodings re-validated against the native lexers on sampled inputs every run), the reference lexer reflex/src/lib.rs (natively diffed against the real lexer on the repository corpus).",
@@ -38,9 +46,7 @@ na = {
  "C04":"label scoping walks a recursive heap AST through Vec/iterator/collect chains; out of reach for Kani (measured) and not yet modelled in the MIR executor",
  "C05":"as C04 plus HashMap/HashSet state and the full expression AST",
  "C06":"as C04",
- "C08":"in progress",
  "C10":"both evaluators (constant folder and interpreter) are LLVM",
- "C12":"in progress",
  "C16":"the recursive-descent parser explodes in CBMC as soon as one token is symbolic (measured); not yet attempted with the MIR executor",
  "C17":"as C16",
  "C18":"process exit status, files and rendered diagnostics are OS-level behaviour; get_backend drags anyhow/backtrace drop glue (measured 10 GB)",
@@ -54,7 +60,7 @@ m = {
  "setup_cmd": "./setup.sh",
  "hooks": {"guard": "cargo features verif / verif_small_buffers",
            "enable": "--features verif_small_buffers (Kani harness crates); the MIR-based checks use the unhooked crate",
-           "baseline_off_cmd": "python3 /verif/lib/baseline.py", "source_commits": ["ecc0424"], "add_only": True},
+           "baseline_off_cmd": "python3 /verif/lib/baseline.py", "source_commits": ["ecc0424", "2ff211b", "4dd7126", "cb3acb4"], "add_only": True},
  "engines": [
   {"name": "E-MIR", "path": "mir/", "serves_properties": sorted(checks),
    "kind_free_text": "bounded symbolic execution of rustc MIR (nightly -Zunpretty=mir of /repo's working tree) into z3 bit-vector terms; verdicts cross-checked on z3 4.8.12 and cvc5; translation validated natively through replay/"},
@@ -65,7 +71,7 @@ m = {
    "level_claimed": {"category": c["cat"], "text": c["text"], "design_ref": c["ref"]},
    "level_note": c["note"], "technique": c.get("technique", EMIR)} for k, c in sorted(checks.items())],
  "not_applicable": [{"property_id": k, "reason": v} for k, v in sorted(na.items())],
- "notes": "Properties marked 'in progress' are being built and will move to checks.",
+ "notes": "All checks accept VERIF_REPO=<dir> to run against a scratch worktree (used for the seeded changes under seeded/).",
 }
 json.dump(m, open(os.path.join(V, 'MANIFEST.json'), 'w'), indent=1)
 print('claimed', sorted(checks), 'n/a', sorted(na))
